@@ -93,6 +93,9 @@ func (c13) Gen(seed uint64, run int, tier string) *core.Case {
 	cfg := swarmCfg(r, 3)
 	cfg.Versioning = run%3 == 0
 	p := c13Prog{Sizes: []int{0, 1, 2, 10, 4096, 100000, 3 + r.IntN(70000)}, Versioned: cfg.Versioning}
+	if run%4 == 1 {
+		p.Sizes = append(p.Sizes, -1) // -1: an explicit directory object (key ending in '/'), an object of 0 bytes
+	}
 	for i := 0; i < 40; i++ {
 		p.Ranges = append(p.Ranges, "")
 	}
@@ -166,9 +169,13 @@ func (c13) Exec(c *core.Case) (out *core.Outcome) {
 		mustOK(root.Do(s3c.PutVersioning(bkt, "Enabled")), "versioning")
 	}
 	o.Evals = 0
-	for si, size := range p.Sizes {
-		data := s3c.GenData(uint64(1000+si), size)
+	for si, psize := range p.Sizes {
+		size := psize
 		key := fmt.Sprintf("obj%d", si)
+		if psize < 0 {
+			size, key = 0, key+"/"
+		}
+		data := s3c.GenData(uint64(1000+si), size)
 		pr := root.Do(s3c.PutObject(bkt, key, data))
 		mustOK(pr, "put object")
 		vid := pr.Resp.Get("X-Amz-Version-Id")
@@ -195,7 +202,7 @@ func (c13) Exec(c *core.Case) (out *core.Outcome) {
 			form := rangeFormClass(rg)
 			_ = sent
 			desc := fmt.Sprintf("GET object of %d bytes with Range %q -> %d, Content-Range %q, Content-Length %q, %d body bytes", size, rg, res.Resp.Status, res.Resp.Get("Content-Range"), res.Resp.Get("Content-Length"), len(res.Resp.Body))
-			q := c13Prog{Sizes: []int{size}, Ranges: []string{rg}, Versioned: p.Versioned}
+			q := c13Prog{Sizes: []int{psize}, Ranges: []string{rg}, Versioned: p.Versioned}
 			viol := func(kind, format string, a ...any) {
 				o.Violate("range", fmt.Sprintf("C13/%s/%s", form, kind), "%s: "+format, append([]any{desc}, a...)...)
 				o.SetReplayP(q)
